@@ -1,7 +1,7 @@
 (* Engine.v -- executable model of the REST engine (cmd/cremengine/engine/api + internal/pkg/server/rest),
    shared by C14 and C15.  No proofs in this file.
 
-   Transcribed handler by handler from the Go sources AS THEY ARE at /repo ee825ef with proposed_fixes/C15-11 applied (the
+   Transcribed handler by handler from the Go sources AS THEY ARE at /repo 7ecfa2c with proposed_fixes/C14-6 and C14-7 applied (the
    fix series proposed_fixes/SERIES-C14C15.txt, the CSV cell-text fix and the all-or-nothing Decode are committed there),
    including the ORDER of side effects.  Every Go expression that can fail at run time (x.(T) without ", ok",
    s[i], a nil dereference, an explicit panic) is an explicit [Panic] branch carrying the Go location in a comment.
@@ -226,7 +226,8 @@ Inductive rbody :=
 | BActive (l : list (Z * list string))
 | BApplicable (l : list (Z * list string))
 | BSubcatchment (l : list (string * bool))
-| BSolution (id : string) (bits : list bool) (vars : V) (detail : option (string * string)).
+| BSolution (id : string) (bits : list bool) (vars : V) (detail : option (string * string))
+| BStatus (name version status : string).   (* admin.ServiceStatus{ServiceName, Version, Status, Time}: EngineAdmin.v *)
 Record response := { rs_status : nat; rs_ctype : ctype; rs_body : rbody }.
 
 Definition error_response (code : nat) : response := {| rs_status := code; rs_ctype := CtJson; rs_body := BErr |}.
@@ -348,12 +349,13 @@ Definition post_scenario (s : state) (r : request) : outcome :=
           (* rememberScenarioAttributeState, then rememberModelState: Initialise(AsIs), SetId, derive, new pool *)
           let m0 := {| m_desc := d; m_id := name; m_bits := all_false d;
                        m_attrs := ca_replace [] "ModelSuppliedPlanningUnitName" (AStr "SubCatchment") |} in
-          do m1 <- derive (st_soltable s) m0;
+          (* forgetSolutionSummary first (proposed_fixes/C14-7): the posted summary belonged to the replaced scenario *)
+          do m1 <- derive None m0;
           (* buildScenarioPostResponse rebuilds the snapshot *)
           respond (ok_json (BSuccess "Scenario configuration successfully posted"))
                   {| st_text := Some (rq_raw r); st_name := Some name; st_model := Some m1;
                      st_snap := Some (snapshot_of m1); st_pool := Some [];
-                     st_soltext := st_soltext s; st_soltable := st_soltable s |}
+                     st_soltext := None; st_soltable := None |}
       end
   | _ => fail 405 s                       (* handleNonTomlContentResponse answers MethodNotAllowed *)
   end.
@@ -371,12 +373,18 @@ Definition with_model (s : state) (m : mstate) (sn : snapshot) : state :=
   {| st_text := st_text s; st_name := st_name s; st_model := Some m; st_snap := Some sn; st_pool := st_pool s;
      st_soltext := st_soltext s; st_soltable := st_soltable s |}.
 
+(* isEngineMaintainedAttribute: the attributes the engine derives itself; PATCH refuses them (proposed_fixes/C14-6) *)
+Definition engine_maintained (k : string) : bool :=
+  String.eqb k "ModelSuppliedPlanningUnitName" || String.eqb k "ParetoFrontMember"
+  || String.eqb k "ValidAgainstScenario" || String.eqb k "ValidationErrors".
+
 (* validatePatchAttributes *)
 Fixpoint patch_valid (n : nat) (l : attrs) : bool :=
   match l with
   | [] => true
   | (k, v) :: l' =>
-      if String.eqb k "Encoding"
+      if engine_maintained k then false
+      else if String.eqb k "Encoding"
       then match v with AStr e => decodes n e && patch_valid n l' | _ => false end
       else patch_valid n l'
   end.
